@@ -4,7 +4,8 @@ proof leg            lean/PlinioVerif/Props/C15.lean (lookup_eq_spec, lookup_per
 correspondence leg   exhaustive: every ordered selection of <= 4 patterns {U, DW, K3, USR}
                      x every subset of the registered constraints satisfied by the layer
                      x both default behaviours, plus registrations for a second layer type
-                     interleaved, plus a malformed stream with two unconstrained entries;
+                     interleaved, plus a malformed stream with two unconstrained entries; plus
+                     histories of registrations and look-ups interleaved on one spec object;
                      real `CostSpec` vs `Drivers/C15.lean`.
 oracle leg           the property's own statement on the real `CostSpec`: answer = documented
                      rule, identical under every permutation; and every built-in spec of
@@ -167,6 +168,89 @@ def _oracle_builtin(chk):
                                    'answers': {k: list(v) for k, v in answers.items()}})
 
 
+def _histories(chk):
+    """Registrations and look-ups interleaved on ONE spec object: a look-up must depend on the layer and on
+    the patterns registered so far only — not on earlier look-ups (a model is built on the spec, the
+    spec is extended, another model is built)."""
+    import torch.nn as nn
+    from plinio.cost import CostSpec
+    from plinio.cost import cost_spec as cs_mod
+    cons = _constraints()
+    rng = chk.rng
+    n_hist = 150 if chk.quick else 4000
+    lines, pending = [], []
+    for h in range(n_hist):
+        default = rng.choice(['zero', 'fail'])
+        cs = CostSpec(shared=True, default_behavior=default)
+        order, fns, ops = [], {}, []
+        tags = list(TAGS)
+        rng.shuffle(tags)
+        k = rng.randint(2, 4)
+        for step in range(rng.randint(3, 8)):
+            if tags and len(order) < k and (rng.random() < .45 or not order and rng.random() < .5):
+                tag = tags.pop()
+                fn = (lambda i: (lambda spec: i))(len(order))
+                fns[id(fn)] = len(order)
+                cs[(nn.Conv2d, cons[tag])] = fn
+                order.append(tag)
+                ops.append('reg ' + tag)
+            else:
+                match = [t for t in TAGS[1:] if rng.random() < .4]
+                spec = _spec_for(match, step)
+                try:
+                    f = cs[(nn.Conv2d, spec)]
+                    if id(f) in fns:
+                        real = 'ok:%d' % fns[id(f)]
+                    elif f is cs_mod.cost_spec_zero_fn and default == 'zero' or f is cs_mod.cost_spec_fail_fn and default == 'fail':
+                        real = 'default'
+                    else:
+                        real = 'other:%r' % (f,)
+                except KeyError:
+                    real = 'conflict'
+                ops.append('lookup ' + ','.join(match))
+                case = {'kind': 'history', 'default': default, 'ops': list(ops), 'order': list(order), 'match': match,
+                        'variant': step}
+                lines.append(_line(order, match))
+                pending.append((case, real, _rule(order, match)))
+    model = chk.driver('C15', lines)
+    for (case, real, want), mod in zip(pending, model):
+        chk.corr(case, real, mod, 'look-up after a history of registrations and look-ups on one spec object')
+        chk.count(('hist', tuple(case['ops']), case['default']), nontrivial=sum(o.startswith('lookup') for o in case['ops']) > 1,
+                  bucket='history:lookups=%d' % min(4, sum(o.startswith('lookup') for o in case['ops'])),
+                  sample=case if len(case['ops']) > 4 else None)
+        if real != want:
+            chk.violation('C15:lookup-depends-on-earlier-lookups' if 'lookup' in ' '.join(case['ops'][:-1]) else
+                          'C15:lookup-differs-from-documented-rule',
+                          'after %s the look-up returns %s where the documented rule on the registered patterns %s gives %s'
+                          % (case['ops'], real, case['order'], want), case)
+
+
+def _replay_history(case):
+    import torch.nn as nn
+    from plinio.cost import CostSpec
+    from plinio.cost import cost_spec as cs_mod
+    cons = _constraints()
+    cs = CostSpec(shared=True, default_behavior=case['default'])
+    order, fns, real = [], {}, None
+    for step, op in enumerate(case['ops']):
+        kind, _, arg = op.partition(' ')
+        if kind == 'reg':
+            fn = (lambda i: (lambda spec: i))(len(order))
+            fns[id(fn)] = len(order)
+            cs[(nn.Conv2d, cons[arg])] = fn
+            order.append(arg)
+        else:
+            match = [t for t in arg.split(',') if t]
+            try:
+                f = cs[(nn.Conv2d, _spec_for(match, step))]
+                real = 'ok:%d' % fns[id(f)] if id(f) in fns else 'default'
+            except KeyError:
+                real = 'conflict'
+    want = _rule(order, case['match'])
+    print('ops=%s impl=%s rule=%s' % (case['ops'], real, want))
+    return 0 if real == want else 1
+
+
 def run(chk):
     chk.rule = ('exhaustive: ordered selections of 0..4 distinct patterns from {U,DW,K3,USR} (65) x all 8 '
                 'subsets of constraints satisfied by the layer x 2 defaults, real CostSpec vs Lean lookup vs '
@@ -233,6 +317,7 @@ def run(chk):
         idx += 1
         chk.count((tuple(order), tuple(match), default, 'mal'), bucket='malformed')
     _oracle_builtin(chk)
+    _histories(chk)
     chk.extra['exhaustive'] = True
 
 
@@ -243,6 +328,8 @@ def replay(data):
         want = _rule(case['order'], case['match'])
         print('impl=%s rule=%s' % (real, want))
         return 0 if real == want else 1
+    if case.get('kind') == 'history':
+        return _replay_history(case)
     if case.get('kind') == 'orders':
         answers = set()
         for order in itertools.permutations(case['patterns']):
